@@ -150,14 +150,14 @@ theorem hasLbrr_value (bs : Bytes) (hb : BytesOk bs) (r : Parsed) (h : parseImpl
     · intro hc
       rw [if_pos (hcelt.mpr hc)]
     · intro hc
-      have hnc : ¬ getMode toc = MODE_CELT_ONLY := fun hm => by have := hcelt.mp hm; omega
+      have hnc : ¬ getMode p.toc = MODE_CELT_ONLY := fun hm => by have := hcelt.mp hm; omega
       rw [if_neg hnc]
       subst hview
       simp only [view]
       cases hfr : p.frames with
       | nil =>
         exfalso
-        have h4 : toc % 4 < 4 := Nat.mod_lt _ (by decide)
+        have h4 : p.toc % 4 < 4 := Nat.mod_lt _ (by decide)
         have hcases : p.code = 0 ∨ p.code = 1 ∨ p.code = 2 ∨ p.code = 3 := by unfold Packet.code; omega
         rcases hcases with hc' | hc' | hc' | hc'
         · have := (hv.code0 hc').1; rw [hfr] at this; simp at this
@@ -169,7 +169,7 @@ theorem hasLbrr_value (bs : Bytes) (hb : BytesOk bs) (r : Parsed) (h : parseImpl
         · intro h0
           simp only [Packet.lens, hfr, List.map_cons, h0, if_true]
         · intro hpos
-          have hdrop : (toc :: data).drop (header false p).length = p.frames.flatten ++ padBytes p := by
+          have hdrop : (p.toc :: data).drop (header false p).length = p.frames.flatten ++ padBytes p := by
             rw [hbs, List.append_nil]; simp [serialize]
           cases fr0 with
           | nil => simp at hpos
@@ -180,10 +180,17 @@ theorem hasLbrr_value (bs : Bytes) (hb : BytesOk bs) (r : Parsed) (h : parseImpl
               rw [if_neg (by omega), hdrop, hfr]
               simp only [List.flatten_cons, List.cons_append]
               rw [hspf]
-              show Res.ok _ = Res.ok _
               unfold lbrrSilkFrames
-              by_cases hst : toc / 4 % 2 = 1
+              by_cases hst : p.toc / 4 % 2 = 1
               · rw [if_pos (hch.mpr hst), if_pos hst]
               · rw [if_neg (fun hh => hst (hch.mp hh)), if_neg hst]
+
+/-- On a SILK / hybrid packet the parser rejects, `opus_packet_has_lbrr` returns the parser's error. -/
+theorem hasLbrr_err (toc : Nat) (data : Bytes) (htoc : toc < 256) (hm : toc / 8 % 32 < 16) (e : Err)
+    (h : parseImpl false (toc :: data) = .err e) : hasLbrr (toc :: data) = .err e := by
+  obtain ⟨_, hcelt, _, _⟩ := toc_facts toc (List.mem_range.mpr htoc)
+  unfold hasLbrr
+  simp only
+  rw [if_neg (fun hh => by have := hcelt.mp hh; omega), h]
 
 end Opus.FramingProofs
